@@ -400,6 +400,14 @@ __get_dir(struct dt_dt_s d, const struct dseq_clo_s *clo)
 	if (!dt_sandwich_only_t_p(d)) {
 		/* trial addition to to see where it goes */
 		struct dt_dt_s tmp = __seq_next(d, clo);
+
+		if (dt_sandwich_only_d_p(d) &&
+		    d.d.typ == DT_DAISY && tmp.d.typ == DT_DAISY) {
+			/* day counts are unsigned and wrap around when the
+			 * trial step leads below the very first day */
+			const int32_t dd = (int32_t)(tmp.d.daisy - d.d.daisy);
+			return (dd > 0) - (dd < 0);
+		}
 		return dt_dtcmp(tmp, d);
 	}
 	if (clo->ite->dv > 0) {
